@@ -927,6 +927,7 @@ fn run_shard(shard: &std::path::Path, n: usize, per_input_timeout: std::time::Du
     let exe = std::env::current_exe().unwrap();
     let mut results: Vec<WorkerResult> = vec![];
     let mut start = 0usize;
+    let mut stuck_inputs = 0usize;
     while start < n {
         let mut cmd = std::process::Command::new(&exe);
         cmd.arg("c12-worker").arg(shard).arg(start.to_string());
@@ -967,8 +968,17 @@ fn run_shard(shard: &std::path::Path, n: usize, per_input_timeout: std::time::Du
                 } else {
                     format!("worker died: code {:?} signal {:?} {}", r.code, r.signal, crate::verdict::one_line(&r.stderr, 200))
                 };
+                let was_stuck = why.starts_with("TIME-BUDGET");
                 results.push(WorkerResult { index: k, done: None, died: Some(why) });
                 start = k + 1;
+                if was_stuck {
+                    stuck_inputs += 1;
+                    // each of these costs CPU_LIMIT_SECS; two witnesses per shard are enough for
+                    // a verdict, the rest of the shard is not run
+                    if stuck_inputs >= 2 {
+                        break;
+                    }
+                }
             }
             None => {
                 // died between inputs or could not start: skip one to guarantee progress
